@@ -310,27 +310,47 @@ def check_userdata(chk, ix):
                       "UserData.getas for a %s value%s gives %r (converter called with %r); expected %r%s" % (
                           case, " whose conversion fails" if conv_fails else "", got, called, want,
                           "" if extra_ok else " without calling the converter"))
-    # Z4
-    cf = ix.func("behave.configuration:Configuration.setup_userdata")
-    chk.instance("Z4")
-    stmts = cf.node.body
-    wrap = [i for i, s_ in enumerate(stmts) if "UserData(" in unparse(s_)]
-    upd = [i for i, s_ in enumerate(stmts) if "userdata.update(self.userdata_defines)" in unparse(s_)]
-    if wrap and upd and wrap[0] < upd[0]:
-        chk.ok("Z4", {"setup_userdata": "file data wrapped first, then updated with the command-line defines"}, nontrivial_key="order")
-    else:
-        _fail(chk, "Z4", cf, "defines not applied last", "setup_userdata does not apply the command-line defines after (over) the config-file userdata")
-    pf = ix.func("behave.userdata:parse_user_define")
-    chk.instance("Z4")
-    splits = [n for n in ast.walk(pf.node) if isinstance(n, ast.Call) and isinstance(n.func, ast.Attribute) and n.func.attr == "split"]
-    ok = any(len(s_.args) == 2 and isinstance(s_.args[0], ast.Constant) and s_.args[0].value == "=" and isinstance(s_.args[1], ast.Constant)
-             and s_.args[1].value == 1 for s_ in splits)
-    bare = any(isinstance(n, ast.Assign) and unparse(n.targets[0]) == "value" and isinstance(n.value, ast.Constant) and n.value.value == "true"
-               for n in ast.walk(pf.node))
-    if ok and bare:
-        chk.ok("Z4", {"parse_user_define": "split('=', 1); bare name -> 'true'"}, nontrivial_key="parse")
-    else:
-        _fail(chk, "Z4", pf, "split=%s bare=%s" % (ok, bare), "parse_user_define does not split at the first '=' only / does not map a bare name to 'true'")
+    # Z4: setup_userdata / update_userdata evaluated: command-line defines end up over whatever the files (or later updates) say
+    cc = ix.cls("behave.configuration:Configuration")
+    for meth, call_args in (("setup_userdata", []), ("update_userdata", [{"a": "late-file", "c": "late-file"}])):
+        cf = cc.lookup(meth)
+        if cf is None:
+            raise AnalysisError("anchor missing: Configuration.%s" % meth)
+        for already_wrapped in (False, True):
+            it = Interp(ix, name="Configuration." + meth)
+            it.int_sat = 100
+            it.list_cap = 100
+            st = State()
+            st.frames = []
+            data = st.alloc(HObj(uc if already_wrapped else "dict", {}, kind="dict", items=[("a", "file"), ("b", "file")], label="userdata from the files"))
+
+            def wrap(i, s_, a, k, n):
+                src = a[0] if a else None
+                items = list(s_.obj(src).items) if isinstance(src, Ref) and s_.obj(src).items is not None else []
+                return [(s_, "val", s_.alloc(HObj(uc, {}, kind="dict", items=items, label="UserData")))]
+            it.stubs["UserData"] = wrap
+            defines = st.alloc(HObj("list", kind="list", items=[("a", "command line")], label="userdata_defines"))
+            me = st.alloc(HObj(cc, {"userdata": data, "userdata_defines": defines}, open=True, label="config"))
+            args = [st.alloc(HObj("dict", kind="dict", items=list(x.items()))) for x in call_args]
+            outs = it.call_function(st, cf, args, {}, None, self_val=me)
+            chk.absorb(it)
+            chk.instance("Z4")
+            if len(outs) != 1 or outs[0][1] != "val":
+                raise AnalysisError("Configuration.%s not evaluable: %r" % (meth, [(k, v) for _, k, v in outs][:3]))
+            s2 = outs[0][0]
+            ud = s2.obj(me).fields.get("userdata")
+            got = dict(s2.obj(ud).items) if isinstance(ud, Ref) and s2.obj(ud).items is not None else None
+            if got is None:
+                raise AnalysisError("Configuration.%s: resulting userdata not concrete" % meth)
+            want = {"a": "command line", "b": "file"}
+            if call_args:
+                want["c"] = "late-file"
+            if got == want:
+                chk.ok("Z4", {"method": meth, "file userdata": {"a": "file", "b": "file"}, "-D": {"a": "command line"}, "result": got},
+                       nontrivial_key=(meth, already_wrapped))
+            else:
+                _fail(chk, "Z4", cf, "%s -> %r" % (meth, got), "Configuration.%s with file userdata a=file, b=file and the command-line define a='command line' "
+                      "leaves %r; expected %r (the command line wins, the rest is kept)" % (meth, got, want))
 
 
 def check_readers_by_evaluation(chk, ix):
